@@ -34,6 +34,7 @@ def plan(tier, seed):
     shards = [{"kind": "nat", "countries": [c], "tier": tier, "_name": f"nat-{c}"} for c in nat]
     for i, ch in enumerate(gen.chunk(other, 6 if tier == "quick" else 16)):
         shards.append({"kind": "other", "countries": ch, "tier": tier, "_name": f"other-{i}"})
+    shards.append({"kind": "contracts", "tier": tier, "_name": "contracts"})
     return shards
 
 
@@ -141,6 +142,10 @@ def run_other(shard, mon, S, table):
 
 
 def run_shard(shard, out_base):
+    if shard.get("kind") == "contracts":
+        from vf import suite  # noqa: PLC0415
+
+        return suite.run_contract_shard("C06", out_base)
     mon = Mon("C06")
     S = judge.lib()
     table = data.countries()
